@@ -110,8 +110,15 @@ def inst_designs():
         for widths in ((1, 1, 1), (3, 2, 0), (0, 4, 2)):
             for place in (0, 1, 2):
                 for conn in ("sig", "slice", "cat", "const"):
-                    yield {"kind": "inst", "params": params, "widths": widths, "place": place, "conn": conn,
+                    yield {"kind": "inst", "params": params, "widths": widths, "place": place, "conn": conn, "padslice": 0,
                            "attrs": {"keep": 1, "note": "n" + str(pi)} if pi % 2 else {}}
+    # partially used I/O ports: an instance / I/O buffer in a (sub)module uses a slice of the port that does not start at bit 0
+    for place in (0, 1, 2):
+        for padw in (2, 3, 5):
+            for start in range(1, padw):
+                for use in ("inst", "iobuf", "both"):
+                    yield {"kind": "inst", "params": {"P_INT": 1}, "widths": (1, 1, padw), "place": place, "conn": "sig", "padslice": start,
+                           "attrs": {}, "use": use}
 
 
 def build_inst(spec):
@@ -147,11 +154,33 @@ def build_inst(spec):
     else:
         i_val = Const(5, wi)
         o_val = y[:wo]
-    inst = Instance("FOREIGN", i_din=i_val, o_dout=o_val, io_pad=pad, **kwargs)
-    nodes[spec["place"]].submodules.u0 = inst
-    exp = {"u0": {"type": "FOREIGN", "params": exp_params, "attrs": dict(spec["attrs"]),
-                  "ports": {"din": ("i", wi), "dout": ("o", wo), "pad": ("io", wio)}}}
-    return top, [a, y, pad], exp
+    start = spec.get("padslice", 0)
+    use = spec.get("use", "inst")
+    ports = [a, y, pad]
+    pad_val = pad
+    padw = wio
+    if start:
+        from amaranth.hdl import IOBufferInstance
+        hi = pad[start:]
+        lo = pad[:start]
+        padw = wio - start
+        pad_val = hi
+        if use in ("iobuf", "both"):
+            # the lower part of the port goes to an input buffer in the same module (both), or the upper part does (iobuf)
+            t = Signal(len(lo) if use == "both" else len(hi), name="t")
+            nodes[spec["place"]].submodules.buf = IOBufferInstance(lo if use == "both" else hi, i=t)
+            o2 = Signal(len(t), name="o2")
+            top.d.comb += o2.eq(t)
+            ports.append(o2)
+    exp = {}
+    if use in ("inst", "both"):
+        inst = Instance("FOREIGN", i_din=i_val, o_dout=o_val, io_pad=pad_val, **kwargs)
+        nodes[spec["place"]].submodules.u0 = inst
+        exp = {"u0": {"type": "FOREIGN", "params": exp_params, "attrs": dict(spec["attrs"]),
+                      "ports": {"din": ("i", wi), "dout": ("o", wo), "pad": ("io", padw)}}}
+    else:
+        top.d.comb += y.eq(a)
+    return top, ports, exp
 
 
 def mem_designs():
